@@ -442,6 +442,7 @@ func (st *AclState) Copy() *AclState {
 	newSt.optionChanges = append(newSt.optionChanges, st.optionChanges...)
 	newSt.list = st.list
 	newSt.lastRecordId = st.lastRecordId
+	newSt.isOneToOne = st.isOneToOne
 	newSt.contentValidator = newContentValidator(newSt.keyStore, newSt, st.list.verifier)
 	return newSt
 }
